@@ -144,3 +144,18 @@ def sequential_view(path):
                     ex[k] = m(ex[k])
         evs.append(Ev(e.kind, m(e.a) if isinstance(e.a, (tuple, list)) else e.a, m(e.b) if isinstance(e.b, (tuple, list)) else e.b, m(e.c) if isinstance(e.c, (tuple, list)) else e.c, e.loc, e.loop, e.stack, ex))
     return PathResult(evs, m(path.retval) if isinstance(path.retval, tuple) else path.retval, path.state)
+
+
+def loop_bound_ok(path, i, iv, N):
+    """does the loop variable iv (a per-iteration value) range over exactly 0 .. N-1 at event i?  Either the iteration is guarded
+    by `iv < N`, or by `iv != N` together with a start at 0 and a step of exactly +1 (the while / iterator-style spelling)."""
+    from .engine import C, lin
+    conds = conds_before(path, i)
+    if ("cmp", "<", iv, C(N)) in conds:
+        return True
+    if ("cmp", "!=", iv, C(N)) in conds and isinstance(iv, tuple) and iv[:1] == ("havoc",):
+        name = iv[-1]
+        init0 = any(e.kind == "DECL" and e.b == name and e.c == C(0) for e in path.events)
+        step1 = any(e.kind == "STORE" and isinstance(e.a, tuple) and e.a[:1] == ("var",) and e.a[-1] == name and e.b == lin("+", iv, C(1)) for e in path.events)
+        return init0 and step1
+    return False
